@@ -18,10 +18,13 @@ def run(cmd, cwd=None, timeout=600):
         return 124, 'TIMEOUT'
 
 
+WAVE = (5, 6)      # mutant numbers of the wave being imported (earlier waves: 1-2, 3-4)
+
+
 def main():
     for prop in sys.argv[1:]:
         src = '/tmp/wt/%s/mutants' % prop
-        for k in (1, 2, 3, 4):
+        for k in WAVE:
             diff = os.path.join(src, 'm%d.diff' % k)
             if not os.path.isfile(diff):
                 continue
